@@ -27,7 +27,7 @@ impl Profile for CustomChain {
     }
     fn gen_world(&self, rng: &mut Rng, reg: &Reg) -> WorldPlan {
         let p: Vec<&Entry> = reg.family("f5");
-        let n = rng.range(1, 3) as usize;
+        let n = rng.range(1, 3 + crate::extra_contracts()) as usize;
         simple_world(rng, reg, &p, n, true)
     }
     fn gen_ops(&self, rng: &mut Rng, reg: &Reg, wp: &WorldPlan, base: &RunRecord) -> Vec<Op> {
@@ -42,9 +42,9 @@ impl Profile for CustomChain {
         sg.fail_pm = *rng.pick(&[0, 100]);
         sg.funds_pm = *rng.pick(&[0, 200]);
         sg.typed_pct = *rng.pick(&[0, 50, 100]);
-        sg.max_depth = rng.range(0, 2) as u32;
+        sg.max_depth = rng.range(0, 2 + crate::extra_depth()) as u32;
         let mut tg = TrafficGen { sg, codes: &wp.codes, cross_migrate: false, model: vec![] };
-        let n = rng.range(3, 12);
+        let n = rng.range(3, 12 * crate::scale());
         (0..n).filter_map(|_| tg.op(rng)).collect()
     }
     fn check(&self, plan: &Plan, rec: &RunRecord, reg: &Reg, cells: &mut Cells) -> Vec<Finding> {
